@@ -37,14 +37,21 @@ structure SCfg where
   /-- removers keep every raft-bearing segment while some group has not recorded a truncation
   segment yet (as-is: only the pointer's latest segment guards such a group) -/
   guardUntruncated : Bool
-  /-- the watchdog only removes segments whose memtable is flushed (≤ manifest log pointer) -/
+  /-- the watchdog only removes segments at or below the manifest log pointer (memtable flushed) -/
   wdChecksFlushed : Bool
+  /-- a memtable flush that fails is retried in place, later flushes wait behind it, so the
+  manifest log pointer never moves past an unflushed memtable (as-is: the failed memtable is
+  dropped from the queue, the next flush moves the pointer past it, and the recovery cleanup —
+  everything at or below the pointer — then deletes its segment) -/
+  flushRetries : Bool
   /-- `OpenWALStorage` seeds the log with the pointer's truncation point before replaying -/
   replaySeedsTrunc : Bool
   deriving DecidableEq, Repr
 
-def SCfg.good : SCfg := { guardUntruncated := true, wdChecksFlushed := true, replaySeedsTrunc := true }
-def SCfg.Good (c : SCfg) : Prop := c.guardUntruncated = true ∧ c.wdChecksFlushed = true ∧ c.replaySeedsTrunc = true
+def SCfg.good : SCfg :=
+  { guardUntruncated := true, wdChecksFlushed := true, flushRetries := true, replaySeedsTrunc := true }
+def SCfg.Good (c : SCfg) : Prop :=
+  c.guardUntruncated = true ∧ c.wdChecksFlushed = true ∧ c.flushRetries = true ∧ c.replaySeedsTrunc = true
 instance SCfg.decGood (c : SCfg) : Decidable c.Good := by unfold SCfg.Good; exact inferInstance
 def SCfg.RemoversGood (c : SCfg) : Prop := c.guardUntruncated = true ∧ c.wdChecksFlushed = true
 instance SCfg.decRemoversGood (c : SCfg) : Decidable c.RemoversGood := by unfold SCfg.RemoversGood; exact inferInstance
@@ -52,6 +59,8 @@ def SCfg.AsIsGuard (c : SCfg) : Prop := c.guardUntruncated = false
 instance SCfg.decAsIsGuard (c : SCfg) : Decidable c.AsIsGuard := by unfold SCfg.AsIsGuard; exact inferInstance
 def SCfg.AsIsWatchdog (c : SCfg) : Prop := c.wdChecksFlushed = false
 instance SCfg.decAsIsWatchdog (c : SCfg) : Decidable c.AsIsWatchdog := by unfold SCfg.AsIsWatchdog; exact inferInstance
+def SCfg.AsIsRecovery (c : SCfg) : Prop := c.flushRetries = false
+instance SCfg.decAsIsRecovery (c : SCfg) : Decidable c.AsIsRecovery := by unfold SCfg.AsIsRecovery; exact inferInstance
 def SCfg.AsIsReplay (c : SCfg) : Prop := c.replaySeedsTrunc = false
 instance SCfg.decAsIsReplay (c : SCfg) : Decidable c.AsIsReplay := by unfold SCfg.AsIsReplay; exact inferInstance
 
@@ -62,6 +71,7 @@ structure S where
   imm : List Nat := []              -- rotated memtables not yet flushed, oldest first
   gateClosed : Bool := false
   tables : List (Nat × Nat) := []   -- puts contained in installed tables
+  installed : List Nat := []        -- ghost: segment ids whose memtable's table was installed
   logPtr : Nat := 0                 -- manifest log pointer (segment)
   live : List (Nat × Nat) := []     -- every put readable by the running process
   seq : Nat := 0
@@ -111,7 +121,8 @@ def flushOne (c : SCfg) (s : S) (id : Nat) : S :=
   | some sg =>
     if sg.puts.isEmpty then { s with imm := s.imm.erase id, segs := setAbsent s.segs [id] }
     else
-      let s1 := { s with tables := s.tables ++ sg.puts, logPtr := id, imm := s.imm.erase id }
+      let s1 := { s with tables := s.tables ++ sg.puts, installed := s.installed ++ [id], logPtr := id,
+                         imm := s.imm.erase id }
       if raftAllows c s1.grps sg then { s1 with segs := setAbsent s1.segs [id] } else s1
 
 def flushAll (c : SCfg) (s : S) : S := s.imm.foldl (flushOne c) s
@@ -123,14 +134,22 @@ def rotate (c : SCfg) (s : S) : S :=
   let s3 := if s2.gateClosed then s2 else flushAll c s2
   put s3 0
 
-/-- a rotation whose flush fails at the manifest write (`LogEdits` returns an error): the table is
-never installed, the log pointer does not move, the memtable stays in memory and is not retried;
-its WAL segment must stay.  (Pending flushes run first: the gate is opened.) -/
+/-- a new memtable bound to a new WAL segment becomes the active one -/
+def newSegSt (s : S) (imm' : List Nat) : S :=
+  { s with imm := imm', segs := s.segs ++ [Segm.mk s.next [] [] true], active := s.next, next := s.next + 1 }
+
+/-- state in which a flush is about to fail: pending flushes have run (the gate is opened) and
+the write that fills the memtable has been applied -/
+def failBase (c : SCfg) (s : S) : S := put (flushAll c { s with gateClosed := false }) 0
+
+/-- a rotation whose flush fails at the manifest write (`LogEdits` returns an error).  As-is the
+table is never installed, the log pointer does not move, the memtable stays in memory and is not
+retried.  With `flushRetries` the flush worker retries it in place until the write succeeds, later
+flushes queue behind it: the outcome is that of an ordinary rotation. -/
 def flushFail (c : SCfg) (s : S) : S :=
-  let s0 := flushAll c { s with gateClosed := false }
-  let s1 := put s0 0
-  let s2 := { s1 with segs := s1.segs ++ [Segm.mk s1.next [] [] true], active := s1.next, next := s1.next + 1 }
-  put s2 0
+  if c.flushRetries then
+    put (flushAll c (newSegSt (failBase c s) ((failBase c s).imm ++ [(failBase c s).active]))) 0
+  else put (newSegSt (failBase c s) (failBase c s).imm) 0
 
 def spanSeg (spans : List (Nat × Nat × Nat)) (k : Nat) : Option Nat :=
   (spans.find? (fun sp => decide (sp.1 ≤ k) && decide (k ≤ sp.2.1))).map (·.2.2)
@@ -196,21 +215,32 @@ def recoverGrp (c : SCfg) (segs : List Segm) (g : Grp) : Grp :=
              spans := pruneSpans (segs.flatMap (fun sg => (sg.raft.filter (fun r => r.g == g.id && r.lo != 0)).map
                         (fun r => (r.lo, r.hi, sg.id)))) g.trunc }
 
+/-- the recovery cleanup's decision for one segment (`lsm/memtable.go:recovery`) -/
+def recoveryDrops (c : SCfg) (s : S) (sg : Segm) : Bool :=
+  sg.present && decide (s.logPtr ≠ 0) && decide (sg.id ≤ s.logPtr) && raftAllows c s.grps sg
+
+/-- segments after the recovery cleanup (deleted ones stay in the list, marked absent) -/
+def crashSegs (c : SCfg) (s : S) : List Segm :=
+  s.segs.map (fun sg => if recoveryDrops c s sg then { sg with present := false } else sg)
+
+/-- crash, stage 1: what survives on disk; every surviving segment becomes a memtable
+(`mt.Size()` of a freshly replayed memtable is never 0: arena header) -/
+def crash1 (c : SCfg) (s : S) : S :=
+  { s with segs := crashSegs c s, imm := [], gateClosed := false,
+           live := s.tables ++ ((crashSegs c s).filter (·.present)).flatMap (·.puts) }
+
+/-- crash, stage 2: the newest surviving segment is the active memtable, the others are flushed -/
+def crash2 (c : SCfg) (s1 : S) : S :=
+  match ((s1.segs.filter (·.present)).map (·.id)).getLast? with
+  | none => { s1 with segs := s1.segs ++ [Segm.mk s1.next [] [] true], active := s1.next, next := s1.next + 1 }
+  | some a => flushAll c { s1 with active := a, imm := ((s1.segs.filter (·.present)).map (·.id)).dropLast }
+
+/-- crash, stage 3: the raft storages are reopened on what is left -/
+def crash3 (c : SCfg) (s2 : S) : S :=
+  { s2 with grps := s2.grps.map (recoverGrp c (s2.segs.filter (·.present))) }
+
 /-- process crash (after `wal.Sync`) + `NoKV.Open` + reopening the raft storages + one put -/
-def crash (c : SCfg) (s : S) : S :=
-  let segs0 := s.segs.filter (·.present)
-  -- recovery cleanup at or below the manifest log pointer
-  let segs1 := segs0.filter (fun sg => !(decide (s.logPtr ≠ 0) && decide (sg.id ≤ s.logPtr) && raftAllows c s.grps sg))
-  -- `mt.Size()` of a freshly replayed memtable is never 0 (arena header): every surviving segment
-  -- becomes a memtable, the newest one the active one
-  let mts := segs1.map (·.id)
-  let s1 : S := { s with segs := segs1, imm := [], gateClosed := false,
-                         live := s.tables ++ segs1.flatMap (·.puts) }
-  let s2 : S := match mts.getLast? with
-    | none => { s1 with segs := s1.segs ++ [Segm.mk s1.next [] [] true], active := s1.next, next := s1.next + 1 }
-    | some a => flushAll c { s1 with active := a, imm := mts.dropLast }
-  let s3 := { s2 with grps := s2.grps.map (recoverGrp c (s2.segs.filter (·.present))) }
-  put s3 0
+def crash (c : SCfg) (s : S) : S := put (crash3 c (crash2 c (crash1 c s))) 0
 
 def get (s : S) (k : Nat) : Option Nat :=
   ((s.live.filter (·.1 == k)).map (·.2)).foldl (fun acc x => match acc with
